@@ -110,6 +110,8 @@ class Profile(Lower):
                 return '(VEC_SIZE(%s) == 0)' % o
             if t == 'vec_int' and name == 'back' and not args:
                 return 'vec_int_back(&%s)' % o
+            if t == 'vec_int' and name == 'front' and not args:
+                return 'vec_int_front(&%s)' % o
             if t == 'vec_int' and name == 'pop_back':
                 return 'vec_int_pop_back(&%s)' % o
             if name == 'push_back' and len(args) == 1:
